@@ -292,7 +292,9 @@ class Sub:
         if t == 'plain':
             s = body
         elif t == 'paren':
-            s = r.choice(['(see below) ', '(nullable) ', '(transfer full): ', '(a) (b) ', '(note: x) ']) + body
+            # (in 'safe' mode no real annotation names: after a planted fault such a line may be read as annotations)
+            s = r.choice(['(see below) ', '(nullable) ', '(transfer full): ', '(a) (b) ', '(note: x) '] if self.mode == 'full'
+                         else ['(see below) ', '(cf. above) ', '(a) (b) ', '(note: x) ']) + body
         elif t == 'taglike':
             s = r.choice(['Since: 2.0 ', 'Returns: ', 'Deprecated: 1.2: ', 'Stability: stable ', 'returns: ']) + body
         else:
